@@ -1,6 +1,7 @@
 SPEC = {
-    'module': 'EV.Props.C17',
+    'module': 'EV.Props.C17audit',
     'theorems': ['EV.Rpc.C17_headers_cap', 'EV.Rpc.C17_headers', 'EV.Rpc.C17_history',
+                 'EV.Rpc.C17_invalidate_any',
                  'EV.Rpc.C17_history_cache', 'EV.Rpc.C17_get_history', 'EV.Rpc.C17_subscribe',
                  'EV.Rpc.C17_notify', 'EV.Rpc.C17_invalidate'],
     'suites': ['limits', 'system'],
@@ -17,13 +18,16 @@ SPEC = {
         'the LRU capacity of the caches (1000 entries) is not modelled: eviction only turns hits into misses',
         'the model is tied to session.py / db.py by differential execution, not by proof',
         'the theorems are about one request against a fixed index; that the reported count is the count returned also when a reorganisation lands between request validation and the queued disk read is judged on every block.headers reply of the real server under the seeded scheduler (suite system, entry run_limits), not proved',
+        '"would not fit in the maximum reply size" (audit): L = max(floor, MAX_SEND) // div is an ENTRY COUNT; there is no statement about the byte size of a reply anywhere.  Measured on JSONRPCv2.response_message: 95-96 bytes per confirmed entry; get_history appends an UNBOUNDED mempool part (confirmed_and_unconfirmed_history), so about 105 mempool entries on top of L-1 confirmed ones exceed MAX_SEND and the client gets aiorpcx\'s "response too large", not "history too large"',
+        'C17_invalidate was stated for height_changed = true only; C17_invalidate_any (EV/Props/C17audit.lean) covers either flag (the mempool-only notification) and comes with a witness in which the world actually changes (history grows from L-1 to L entries)',
+        'C17_notify bounds what is sent; that the `null` notification IS sent when a subscription is dropped is not stated (liveness half); the _notify_count re-read loop that maintains CacheOK is outside the model',
     ],
     'design_ref': 'DESIGN.md §6 C17',
     'level_text': 'proof: for every start, count, cp, cap and chain height the headers reply has '
                   "count' = max(0, min(count, cap, height+1-start)) <= cap headers, reports exactly that "
                   "count, 160*count' hex characters, the bytes of heights start..start+count'-1, and a proof "
                   "iff count' != 0 and cp != 0 (for the last returned header) (C17_headers_cap, C17_headers); "
-                  'with L = max(floor, MAX_SEND) // div observed from the source, limited_history returns the '
+                  'with L = max(floor, MAX_SEND) // div observed from the source (an entry count: no theorem is about the byte size of a reply), limited_history returns the '
                   'whole history iff it has < L entries and the error iff >= L, identically from cache '
                   '(C17_history, C17_history_cache), get_history / subscribe / notifications are computed from '
                   'that result only: never a truncated history, never a status of one, a failing subscribe '
